@@ -108,7 +108,12 @@ func init() { Registry["C09"] = C09 }
 // C09: requests are dispatched only when every required header is present and valid.
 func C09(c *Ctx, r *report.Run) error {
 	r.Rule = "for every RPC of every unit with header declarations (service, method, both, override of the same name; types string/integer/number/boolean/array; formats uuid/email/date-time/date/time): every must-accept exemplar of M-hdr per header, and every non-empty subset (<=4 headers) of the required headers made bad in every way {absent, empty, each must-reject exemplar} x body {valid, malformed}, sent as raw requests to the generated Go server; oracle: 400 + violation set == offending header names + handler not run + zero body reads before the verdict, resp. not rejected for the header; distinct = (unit, rpc, outcome)"
-	specs := serviceSpecs(c)
+	var specs []*spec.Spec
+	for _, s := range serviceSpecs(c) {
+		if !hasTag(s, "route") { // raw requests are sent to the documented path; route-configuration corner cases are C03's subject
+			specs = append(specs, s)
+		}
+	}
 	r.Programs = len(specs)
 	w, err := ws.Build(c.Bins, specs, ws.Options{Variant: ws.H, Tag: "rtH2", Harness: true})
 	if err != nil {
@@ -131,7 +136,7 @@ func C02(c *Ctx, r *report.Run) error {
 	r.Rule = "for every RPC with path variables and/or query parameters (verbs GET/POST/PUT/DELETE/PATCH, every scalar kind the generators accept, singular/optional/repeated query fields, renamed and required parameters) x every URL-bound field x URL value {every boundary value of the kind, zero, malformed and out-of-range spellings, missing required/optional, repeated occurrence} x body {absent, empty, {}, object omitting the URL-bound fields}: raw request to the generated Go server; oracle = M-pipe: valid -> handler runs once and sees the URL's value in every URL-bound field; unconvertible / missing required -> 400 with a violation naming the field and no dispatch; distinct = (unit, rpc, slot, outcome)"
 	var specs []*spec.Spec
 	for _, s := range serviceSpecs(c) {
-		if !hasTag(s, "ctx") {
+		if !hasTag(s, "ctx") && !hasTag(s, "route") {
 			specs = append(specs, s)
 		}
 	}
@@ -157,7 +162,7 @@ func C10(c *Ctx, r *report.Run) error {
 	r.Rule = "M-pipe error paths: for every RPC x every applicable error source {missing required header, unconvertible path value, missing required query parameter, malformed body, every single-deviation rule violation (nested / repeated / map field paths), plain handler error, sebuf Error, ValidationError from the handler, custom *Error message, wrapped custom error} x request content type {json, x-protobuf, octet-stream} x error hook {none} + all 16 subsets of {set header, WriteHeader(418), return message, write body}: raw request to the generated Go server, response compared with the model (status, encoding, decoded body, violation field set, hook effects, handler ran or not); the un-hooked response is then fed to the generated Go client and the returned error is compared (ValidationError with the same violations / error carrying the message); distinct = (unit, rpc, source, content type, outcome)"
 	var specs []*spec.Spec
 	for _, s := range serviceSpecs(c) {
-		if !hasTag(s, "ctx") && !hasTag(s, "codec") {
+		if !hasTag(s, "ctx") && !hasTag(s, "codec") && !hasTag(s, "route") {
 			specs = append(specs, s)
 		}
 	}
